@@ -35,7 +35,21 @@ func TestVerifC18Ext(t *testing.T) {
 			out.Linef("end")
 			continue
 		}
-		if err := ext.Start(bg, componenttest.NewNopHost()); err != nil {
+		// the extension is started / shut down with a live, an already cancelled or an already expired context
+		dead := func() context.Context {
+			switch (idx + r.IntN(2)) % 3 {
+			case 1:
+				ctx, cf := context.WithCancel(bg)
+				cf()
+				return ctx
+			case 2:
+				ctx, cf := context.WithDeadline(bg, time.Now().Add(-time.Second))
+				_ = cf
+				return ctx
+			}
+			return bg
+		}
+		if err := ext.Start(dead(), componenttest.NewNopHost()); err != nil {
 			out.Linef("viol sig=C18/extension/start-failed %v", err)
 		}
 		spike := uint64(cfg.MemorySpikeLimitMiB) << 20
@@ -59,8 +73,12 @@ func TestVerifC18Ext(t *testing.T) {
 			}
 			prev = got
 		}
-		if err := ext.Shutdown(bg); err != nil {
+		if err := ext.Shutdown(dead()); err != nil {
 			out.Linef("viol sig=C18/extension/shutdown-failed %v", err)
+		}
+		// whatever context it left with, the extension has left: the limiter is stopped
+		if err := ext.memLimiter.Shutdown(bg); err != memorylimiter.ErrShutdownNotStarted {
+			out.Linef("viol sig=C18/refcount/limiter-still-running-after-extension-shutdown %v", err)
 		}
 		if changes >= 2 {
 			out.Linef("nt")
